@@ -124,7 +124,7 @@ func init() {
 			return s
 		},
 		Run:  c07Run,
-		Rule: "matrix: 88 subjects (56 injected value kinds incl. nil pointer/map/slice/func and empty HTML, unknown identifier, literals, field/index/helper/user-function results) x 14 syntactic contexts (if, silent if, else-if, !, !!, && and || on either side, if(!x), if(x && 1), inside for / fn / helper block): every context must report the truth value given by the statement's table (which makes them agree with each other). chains: if + k else-if (+ else), k<=3, every assignment of condition values from {true,false,0,\"\",\"a\",nil} through a counting helper plus the bare conditions nope / !nope (unknown identifier), blocks as text or as return, at top level and inside for / fn / helper block: exactly the first truthy block (or else / nothing) is rendered and conditions 0..j are evaluated once each, none after j. Non-trivial: all cases.",
+		Rule: "matrix: 91 subjects (59 injected value kinds incl. nil pointer/map/slice/func and empty HTML, unknown identifier, literals, field/index/helper/user-function results) x 14 syntactic contexts (if, silent if, else-if, !, !!, && and || on either side, if(!x), if(x && 1), inside for / fn / helper block): every context must report the truth value given by the statement's table (which makes them agree with each other). chains: if + k else-if (+ else), k<=3, every assignment of condition values from {true,false,0,\"\",\"a\",nil} through a counting helper plus the bare conditions nope / !nope (unknown identifier), blocks as text or as return, at top level and inside for / fn / helper block: exactly the first truthy block (or else / nothing) is rendered and conditions 0..j are evaluated once each, none after j. Non-trivial: all cases.",
 		Bound: func(th bool) string {
 			return "matrix complete; chains with up to 3 else-if branches, 8 condition values, 4 placements, 2 block styles"
 		},
